@@ -52,9 +52,6 @@ def select__node_kind_test(self: XPathFunction, context: ta.ContextType = None) 
 @method('node')
 def nud__item_sequence_type(self: XPathFunction) -> XPathFunction:
     XPathFunction.nud(self)
-    if self.parser.next_token.symbol in ('*', '+', '?'):
-        self.occurrence = self.parser.next_token.symbol
-        self.parser.advance()
     return self
 
 
